@@ -53,6 +53,13 @@ func c16HistoryMode(c *evid.Ctx, seed int64, blameOnly bool) {
 	if seed%2 == 0 {
 		cl.FailProb = 0.08
 	}
+	if seed%3 == 0 {
+		cl.ForeignCPProb = 0.12
+	}
+	defer func() {
+		c.Count("foreign_checkpoints_refused", int64(cl.ForeignRefused))
+		c.Count("foreign_checkpoints_accepted", int64(cl.ForeignAccepted))
+	}()
 	// flags per node: what happened since the node's previous checkpoint
 	type flags struct{ tail, restart, leader, head, appendfail bool }
 	fl := make([]flags, len(cl.Nodes))
